@@ -197,7 +197,7 @@ impl Ctx {
                             }
                             // exactly one `error:` line carrying the payload
                             let payload = err_payload(e);
-                            let ok = obs.out_rows.len() == 1 && obs.out_rows[0].starts_with("error:") && payload.iter().all(|p| obs.out_rows[0].contains(p.as_str()));
+                            let ok = obs.out_rows.len() == 1 && obs.out_rows[0].starts_with("error:") && payload.iter().all(|p| obs.out_rows[0].contains(p.as_str()) || obs.out_rows[0].ends_with(p.trim_end_matches(' '))); // rows are compared without trailing blanks (C06): a payload ending in blanks can only be seen up to them
                             if !ok {
                                 self.found("C09", "error-line", err_kind(e), d.id, line, format!("{}: output between the line and the next prompt is {:?}; expected a single `error:` line containing {:?}", ctx, obs.out_rows, payload));
                             }
@@ -535,9 +535,34 @@ fn diff_kind(want: &str, got: &str) -> &'static str {
 
 // ------------------------------------------------------------------ line generation (C09)
 
+/// texts near the edge of what the canonical parsers accept, for any field type: whether a given one is valid for a given type is
+/// decided by that type's `str::parse` in the reference interpreter, never assumed here
+const TRICKY: [&str; 34] = [
+    "-0", "+0", "00", "1_000", "\u{661}\u{662}\u{663}", "\u{ff11}\u{ff12}", " 1", "1 ", "0x10", "1e3", "+-1", "infinity", "-inf", "NaN", "1e400", "1e-400", "0.1e1",
+    "1f32", "TRUE", "false ", "0", "+", "-", "1.0", "0b1", "1e+2", "\u{221e}", "9999999999999999999999999999999999999999999", "-9999999999999999999999999999999999999999999",
+    "t", "e\u{301}", "\u{1F600}", "١", "+1.5e-3",
+];
+
 fn gen_value(rng: &mut Rng, ty: Ty, after_dd: bool) -> String {
+    let s = if rng.chance(12) && !matches!(ty, Ty::Str | Ty::Tag | Ty::Hex) {
+        TRICKY[rng.below(TRICKY.len())].to_string()
+    } else {
+        gen_value_plain(rng, ty)
+    };
+    if s.starts_with('-') && s.len() > 1 && !after_dd {
+        // a leading dash would be read as an option: keep such values for after `--`
+        return match ty {
+            Ty::Str => "plain".into(),
+            Ty::Char => "x".into(),
+            _ => "0".into(),
+        };
+    }
+    s
+}
+
+fn gen_value_plain(rng: &mut Rng, ty: Ty) -> String {
     let pick = |rng: &mut Rng, v: &[&str]| v[rng.below(v.len())].to_string();
-    let s = match ty {
+    match ty {
         Ty::U8 => pick(rng, &["0", "255", "7", "+5", "007"]),
         Ty::U16 => pick(rng, &["0", "65535", "300"]),
         Ty::U32 => pick(rng, &["0", "4294967295", "12"]),
@@ -556,20 +581,17 @@ fn gen_value(rng: &mut Rng, ty: Ty, after_dd: bool) -> String {
         Ty::Str => pick(rng, &["plain", "two words", "", "é€𐍈", "q\"uote", "back\\slash", "-dash", "--", "  lead", "a=b", "help"]),
         Ty::Hex => pick(rng, &["0x0", "0xff", "0xFFFFFFFF", "0x1f", "0x00000001"]),
         Ty::Tag => pick(rng, &["#a", "#two words", "#é€𐍈", "##", "#-x", "#help"]),
-    };
-    if s.starts_with('-') && s.len() > 1 && !after_dd {
-        // a leading dash would be read as an option: keep such values for after `--`
-        return match ty {
-            Ty::Str => "plain".into(),
-            Ty::Char => "x".into(),
-            _ => "0".into(),
-        };
     }
-    s
 }
 
 fn bad_value(rng: &mut Rng, ty: Ty) -> String {
     let pick = |rng: &mut Rng, v: &[&str]| v[rng.below(v.len())].to_string();
+    if rng.chance(25) && !matches!(ty, Ty::Str) {
+        let t = TRICKY[rng.below(TRICKY.len())];
+        if !(t.starts_with('-') && t.len() > 1) {
+            return t.to_string();
+        }
+    }
     match ty {
         Ty::U8 => pick(rng, &["256", "abc", "", "1.5", "0x10", " 1"]),
         Ty::I8 => pick(rng, &["128", "abc", "", "1e1"]),
